@@ -1,6 +1,7 @@
 import HappyProofs.C03.Rename
 import HappyProofs.C03.Layout
 import HappyProofs.C03.Exchange
+import HappyProofs.C03.Coordinator
 import HappyModel.C03.Spec
 /-!
 # C03 — property theorems
